@@ -42,7 +42,7 @@ func (s *scripted) Seed(int64) {}
 // ---------------------------------------------------------------- oracle (independent of /repo/set)
 
 type oreg struct {
-	kind  byte         // 'u' unordered, 's' stable, 'a' sorted ascending, 'd' sorted descending
+	kind  byte         // 'u' unordered, 's' stable, sorted ascending: 'a' (-1/0/+1) 'b' (a-b) 'c' (7*(a-b)), descending: 'd' (+1/0/-1) 'e' (b-a)
 	m     map[int]bool // the mathematical set
 	order []int        // stable: insertion order (meaningless for the other kinds)
 }
@@ -91,9 +91,9 @@ func (o *oreg) expectedOrder() []int {
 	switch o.kind {
 	case 's':
 		return o.order
-	case 'a':
+	case 'a', 'b', 'c':
 		return o.sortedAsc()
-	case 'd':
+	case 'd', 'e':
 		xs := o.sortedAsc()
 		for i, j := 0, len(xs)-1; i < j; i, j = i+1, j-1 {
 			xs[i], xs[j] = xs[j], xs[i]
@@ -115,16 +115,58 @@ func cmpAsc(a, b int) int {
 }
 func cmpDesc(a, b int) int { return cmpAsc(b, a) }
 
-func newSet(kind byte) set.Set[int] {
+// comparators whose values are not normalised to -1/0/+1
+func cmpSub(a, b int) int    { return a - b }
+func cmpSub7(a, b int) int   { return 7 * (a - b) }
+func cmpRevSub(a, b int) int { return b - a }
+
+func isAscKind(k byte) bool  { return k == 'a' || k == 'b' || k == 'c' }
+func isDescKind(k byte) bool { return k == 'd' || k == 'e' }
+
+func newSet(kind byte, vals ...int) set.Set[int] {
 	switch kind {
 	case 'u':
-		return set.New[int](eqInt)
+		return set.New[int](eqInt, vals...)
 	case 's':
-		return set.NewStable[int](eqInt)
+		return set.NewStable[int](eqInt, vals...)
 	case 'a':
-		return set.NewSorted[int](cmpAsc)
+		return set.NewSorted[int](cmpAsc, vals...)
 	case 'd':
-		return set.NewSorted[int](cmpDesc)
+		return set.NewSorted[int](cmpDesc, vals...)
+	case 'b':
+		return set.NewSorted[int](cmpSub, vals...)
+	case 'c':
+		return set.NewSorted[int](cmpSub7, vals...)
+	case 'e':
+		return set.NewSorted[int](cmpRevSub, vals...)
+	}
+	return nil
+}
+
+// the predicates of the match operations
+func parsePred(w string) func(int) bool {
+	kv := strings.SplitN(w, ":", 2)
+	switch kv[0] {
+	case "ge", "lt":
+		if len(kv) != 2 {
+			return nil
+		}
+		k, err := strconv.Atoi(kv[1])
+		if err != nil {
+			return nil
+		}
+		if kv[0] == "ge" {
+			return func(x int) bool { return x >= k }
+		}
+		return func(x int) bool { return x < k }
+	case "odd":
+		if len(kv) == 1 {
+			return func(x int) bool { return x%2 != 0 }
+		}
+	case "even":
+		if len(kv) == 1 {
+			return func(x int) bool { return x%2 == 0 }
+		}
 	}
 	return nil
 }
@@ -316,7 +358,7 @@ func execCase(c hx.Case, pub *published) {
 		for k, s := range regs {
 			snap[k] = s.String()
 		}
-		dst := -1 // the register the op is allowed to change
+		dst, dst2 := -1, -1 // the registers the op is allowed to change
 		reg := func(w string) int {
 			k, err := strconv.Atoi(w)
 			if err != nil || k < 0 || k >= len(regs) {
@@ -361,13 +403,18 @@ func execCase(c hx.Case, pub *published) {
 				case "add":
 					dst = k
 					s.Add(vs...)
-					for _, v := range vs {
+					for vi, v := range vs {
+						for _, w := range vs[:vi] {
+							if w == v {
+								tags["add-repeats-value-in-one-call"] = true
+							}
+						}
 						if o.m[v] {
 							tags["add-duplicate"] = true
-						} else if o.kind == 'a' || o.kind == 'd' {
+						} else if isAscKind(o.kind) || isDescKind(o.kind) {
 							last := true
 							for x := range o.m {
-								if (o.kind == 'a' && x > v) || (o.kind == 'd' && x < v) {
+								if (isAscKind(o.kind) && x > v) || (isDescKind(o.kind) && x < v) {
 									last = false
 								}
 							}
@@ -484,6 +531,9 @@ func execCase(c hx.Case, pub *published) {
 				if a < 0 || b < 0 {
 					return
 				}
+				if a == b {
+					tags["relation-with-itself"] = true
+				}
 				oa, ob := orc[a], orc[b]
 				sub := func(x, y *oreg) bool {
 					for v := range x.m {
@@ -540,18 +590,243 @@ func execCase(c hx.Case, pub *published) {
 				delete(removedHit, d)
 				tags[f[0]] = true
 			case "new":
-				if len(f) != 3 || len(f[2]) != 1 {
+				if len(f) < 3 || len(f[2]) != 1 {
 					return
 				}
 				d := reg(f[1])
-				s := newSet(f[2][0])
-				if d < 0 || s == nil {
+				vs, ok := ints(f[3:])
+				if d < 0 || !ok || newSet(f[2][0]) == nil {
 					return
 				}
+				opMode()
+				s := newSet(f[2][0], vs...)
+				o := newOreg(f[2][0])
+				seen := map[int]bool{}
+				for _, v := range vs {
+					if seen[v] {
+						tags["new-with-repeated-value"] = true
+					}
+					seen[v] = true
+					o.add(v)
+				}
 				dst = d
-				regs[d], orc[d] = s, newOreg(f[2][0])
+				regs[d], orc[d] = s, o
 				delete(removedHit, d)
 				out = "ok"
+				agree(i, "New result", s, o)
+			case "anymatch", "allmatch", "firstmatch":
+				if len(f) != 3 {
+					return
+				}
+				k := reg(f[1])
+				p := parsePred(f[2])
+				if k < 0 || p == nil {
+					return
+				}
+				s, o := regs[k], orc[k]
+				opMode()
+				switch f[0] {
+				case "anymatch", "allmatch":
+					var got bool
+					want := f[0] == "allmatch"
+					if f[0] == "anymatch" {
+						got = s.AnyMatch(p)
+						for v := range o.m {
+							want = want || p(v)
+						}
+					} else {
+						got = s.AllMatch(p)
+						for v := range o.m {
+							want = want && p(v)
+						}
+					}
+					out = "ok " + strconv.FormatBool(got)
+					if got != want {
+						bad(i, "%s(%s) = %v on %v", f[0], f[2], got, o.sortedAsc())
+					}
+				case "firstmatch":
+					v, found := s.FirstMatch(p)
+					if found {
+						out = "ok some " + strconv.Itoa(v)
+					} else {
+						out = "ok none"
+					}
+					var cands []int
+					order := o.expectedOrder()
+					if order == nil {
+						order = o.sortedAsc()
+					}
+					for _, x := range order {
+						if p(x) {
+							cands = append(cands, x)
+						}
+					}
+					switch {
+					case len(cands) == 0 && found:
+						bad(i, "FirstMatch(%s) found %d in %v where nothing matches", f[2], v, o.sortedAsc())
+					case len(cands) > 0 && (!found || !o.m[v] || !p(v)):
+						bad(i, "FirstMatch(%s) = (%d,%v) on %v", f[2], v, found, o.sortedAsc())
+					case len(cands) > 0 && o.expectedOrder() != nil && v != cands[0]:
+						bad(i, "FirstMatch(%s) = %d on kind %c, the first match in iteration order is %d", f[2], v, o.kind, cands[0])
+					}
+				}
+				tags[f[0]] = true
+				observe(k)
+			case "select", "partition":
+				np := 2
+				if f[0] == "partition" {
+					np = 3
+				}
+				if len(f) != np+2 {
+					return
+				}
+				d := reg(f[1])
+				e := d
+				if f[0] == "partition" {
+					e = reg(f[2])
+				}
+				a := reg(f[np])
+				p := parsePred(f[np+1])
+				if d < 0 || e < 0 || a < 0 || p == nil {
+					return
+				}
+				recv := orc[a]
+				src := recv.order
+				if recv.kind != 's' {
+					src = recv.sortedAsc()
+				}
+				om, ou := newOreg(recv.kind), newOreg(recv.kind)
+				for _, v := range src {
+					if p(v) {
+						om.add(v)
+					} else {
+						ou.add(v)
+					}
+				}
+				observe(a)
+				opMode()
+				if f[0] == "select" {
+					c := regs[a].SelectMatch(p)
+					t, isSet := c.(set.Set[int])
+					if !isSet {
+						bad(i, "SelectMatch returned a %T, not a set", c)
+						return
+					}
+					out = "ok " + t.String()
+					dst = d
+					regs[d], orc[d] = t, om
+					delete(removedHit, d)
+					agree(i, "SelectMatch result", t, om)
+				} else {
+					c1, c2 := regs[a].PartitionMatch(p)
+					t, ok1 := c1.(set.Set[int])
+					u, ok2 := c2.(set.Set[int])
+					if !ok1 || !ok2 {
+						bad(i, "PartitionMatch returned %T, %T, not sets", c1, c2)
+						return
+					}
+					out = "ok " + t.String() + " " + u.String()
+					dst, dst2 = d, e
+					regs[d], orc[d] = t, om
+					regs[e], orc[e] = u, ou
+					delete(removedHit, d)
+					delete(removedHit, e)
+					if d != e {
+						agree(i, "PartitionMatch matched", t, om)
+					}
+					agree(i, "PartitionMatch unmatched", u, ou)
+				}
+				tags[f[0]] = true
+			case "powermut", "partmut":
+				// Powerset / Partitions, then every member (block) of the result is edited: the source set, every
+				// other register and (Powerset) the sibling members must keep their contents
+				if len(f) != 3 {
+					return
+				}
+				k := reg(f[1])
+				v, err := strconv.Atoi(f[2])
+				if k < 0 || err != nil {
+					return
+				}
+				o := orc[k]
+				n := len(o.m)
+				x, haveX := 0, false
+				if xs := o.sortedAsc(); len(xs) > 0 {
+					x, haveX = xs[0], true
+				}
+				opMode()
+				if f[0] == "powermut" {
+					PS := set.Powerset[int](regs[k])
+					out = "ok " + strconv.Itoa(PS.Size())
+					checkMode()
+					var ms []set.Set[int]
+					for m := range PS.All() {
+						ms = append(ms, m)
+					}
+					expect := make([][]int, len(ms))
+					for j, m := range ms {
+						expect[j] = sortedCopy(members(m))
+					}
+					for j, m := range ms {
+						m.Add(v)
+						if haveX {
+							m.Remove(x)
+						}
+						e := map[int]bool{v: true}
+						for _, y := range expect[j] {
+							e[y] = true
+						}
+						if haveX && x != v {
+							delete(e, x)
+						} else if haveX && x == v {
+							delete(e, x)
+						}
+						expect[j] = expect[j][:0]
+						for y := range e {
+							expect[j] = append(expect[j], y)
+						}
+						sort.Ints(expect[j])
+						for l, m2 := range ms {
+							if got := sortedCopy(members(m2)); !sameInts(got, expect[l]) {
+								bad(i, "editing member %d of the Powerset result changed member %d to %v (expected %v)", j, l, got, expect[l])
+							}
+						}
+					}
+					if len(ms) != 1<<n {
+						bad(i, "Powerset of %d members iterates %d subsets", n, len(ms))
+					}
+				} else {
+					Ps := set.Partitions[int](regs[k])
+					out = "ok " + strconv.Itoa(Ps.Size())
+					checkMode()
+					slots := 0
+					distinct := map[set.Set[int]]bool{}
+					var blocks []set.Set[int]
+					for P := range Ps.All() {
+						for b := range P.All() {
+							slots++
+							if !distinct[b] {
+								distinct[b] = true
+								blocks = append(blocks, b)
+							}
+						}
+					}
+					for _, b := range blocks {
+						b.Add(v)
+						if haveX {
+							b.Remove(x)
+						}
+					}
+					if len(distinct) < slots {
+						// not excluded by the property (it speaks about the value returned, not about later edits of it)
+						tags["partition-block-objects-shared-between-partitions"] = true
+					}
+				}
+				tags[f[0]+"-n="+strconv.Itoa(n)] = true
+				if n >= 3 {
+					nontrivial = true
+				}
+				observe(k)
 			case "union", "inter", "diff":
 				if len(f) < 3 {
 					return
@@ -576,9 +851,17 @@ func execCase(c hx.Case, pub *published) {
 					if k == a {
 						tags["receiver-as-operand"] = true
 					}
+
 					observe(k)
 				}
 				observe(a)
+				seenArg := map[string]bool{}
+				for _, w := range f[3:] {
+					if seenArg[w] {
+						tags["same-operand-twice"] = true
+					}
+					seenArg[w] = true
+				}
 				recv := orc[a]
 				o := newOreg(recv.kind)
 				// group[v] = which argument contributed v first (0 = receiver), for the stable order check
@@ -805,7 +1088,7 @@ func execCase(c hx.Case, pub *published) {
 		res.Outs = append(res.Outs, out)
 		// nothing but the destination may have changed: operands, the receiver and every bystander (clones!)
 		for k, s := range regs {
-			if k == dst {
+			if k == dst || k == dst2 {
 				continue
 			}
 			if now := s.String(); now != snap[k] {
@@ -825,7 +1108,9 @@ func execCase(c hx.Case, pub *published) {
 
 // ---------------------------------------------------------------- generators
 
-const kindLetters = "usad"
+const kindLetters = "usadbce"
+
+var preds = []string{"ge:0", "ge:2", "ge:5", "lt:1", "lt:4", "odd", "even", "ge:-100", "lt:-100"}
 
 type gen struct {
 	r     *hx.Rand
@@ -888,6 +1173,12 @@ func (g *gen) step(maxPow, maxPart int) {
 		if r.Chance(1, 6) {
 			vs = g.vals(0, 6)
 		}
+		if len(vs) > 0 && r.Chance(1, 4) { // the same value more than once in one call
+			vs = append(vs, vs[r.Intn(len(vs))])
+			if r.Bool() {
+				vs = append(vs, g.val(), vs[0])
+			}
+		}
 		for _, v := range vs {
 			g.sets[k][v] = true
 		}
@@ -896,6 +1187,9 @@ func (g *gen) step(maxPow, maxPart int) {
 		vs := g.vals(1, 2)
 		if v, ok := g.member(k); ok && r.Chance(2, 3) {
 			vs[0] = v
+		}
+		if r.Chance(1, 4) { // remove the same value twice in one call
+			vs = append(vs, vs[0])
 		}
 		for _, v := range vs {
 			delete(g.sets[k], v)
@@ -920,6 +1214,9 @@ func (g *gen) step(maxPow, maxPart int) {
 		g.emit("string %d", k)
 	case x < 72:
 		j := r.Intn(n)
+		if r.Chance(1, 5) {
+			j = k // a set compared with itself
+		}
 		g.emit("%s %d %d", hx.Pick(r, []string{"equal", "subset", "superset"}), k, j)
 	case x < 76:
 		d := r.Intn(n)
@@ -933,11 +1230,18 @@ func (g *gen) step(maxPow, maxPart int) {
 		g.emit("cloneempty %d %d", d, k)
 	case x < 78:
 		d := r.Intn(n)
-		kd := kindLetters[r.Intn(4)]
+		kd := kindLetters[r.Intn(len(kindLetters))]
 		g.sets[d] = map[int]bool{}
 		g.kinds[d] = kd
-		g.emit("new %d %c", d, kd)
-	case x < 96:
+		vs := g.vals(0, 4)
+		if len(vs) > 0 && r.Bool() {
+			vs = append(vs, vs[0]) // New(eq, 5, …, 5)
+		}
+		for _, v := range vs {
+			g.sets[d][v] = true
+		}
+		g.emit("new %d %c%s", d, kd, join(vs))
+	case x < 92:
 		d := r.Intn(n)
 		nops := r.Range(0, 4)
 		if r.Chance(2, 3) {
@@ -946,6 +1250,12 @@ func (g *gen) step(maxPow, maxPart int) {
 		args := make([]int, nops)
 		for i := range args {
 			args[i] = r.Intn(n)
+		}
+		if nops > 0 && r.Chance(1, 4) {
+			args = append(args, args[r.Intn(nops)]) // the same operand twice
+		}
+		if r.Chance(1, 5) {
+			args = append(args, k) // the receiver as its own operand
 		}
 		res := copySet(g.sets[k])
 		name := hx.Pick(r, []string{"union", "inter", "diff"})
@@ -971,12 +1281,45 @@ func (g *gen) step(maxPow, maxPart int) {
 		g.sets[d] = res
 		g.kinds[d] = g.kinds[k]
 	default:
-		if len(g.sets[k]) <= maxPow && r.Bool() {
+		y := r.Intn(10)
+		pred := hx.Pick(r, preds)
+		pf := parsePred(pred)
+		switch {
+		case y < 2 && len(g.sets[k]) <= maxPow:
 			g.emit("powerset %d", k)
-		} else if len(g.sets[k]) <= maxPart {
+		case y < 3 && len(g.sets[k]) <= maxPow:
+			g.emit("powermut %d %d", k, g.val())
+		case y < 4 && len(g.sets[k]) <= maxPart:
 			g.emit("partitions %d", k)
-		} else {
-			g.emit("string %d", k)
+		case y < 5 && len(g.sets[k]) <= maxPart:
+			g.emit("partmut %d %d", k, g.val())
+		case y < 7:
+			g.emit("%s %d %s", hx.Pick(r, []string{"anymatch", "allmatch", "firstmatch"}), k, pred)
+		case y < 9:
+			d := r.Intn(n)
+			res := map[int]bool{}
+			for v := range g.sets[k] {
+				if pf(v) {
+					res[v] = true
+				}
+			}
+			g.emit("select %d %d %s", d, k, pred)
+			g.sets[d] = res
+			g.kinds[d] = g.kinds[k]
+		default:
+			d, e := r.Intn(n), r.Intn(n)
+			yes, no := map[int]bool{}, map[int]bool{}
+			for v := range g.sets[k] {
+				if pf(v) {
+					yes[v] = true
+				} else {
+					no[v] = true
+				}
+			}
+			g.emit("partition %d %d %d %s", d, e, k, pred)
+			kk := g.kinds[k]
+			g.sets[d], g.kinds[d] = yes, kk
+			g.sets[e], g.kinds[e] = no, kk
 		}
 	}
 }
@@ -984,7 +1327,7 @@ func (g *gen) step(maxPow, maxPart int) {
 func randomCase(r *hx.Rand, nregs, univ, length, maxPow, maxPart int) hx.Case {
 	g := &gen{r: r, univ: univ}
 	for i := 0; i < nregs; i++ {
-		g.kinds = append(g.kinds, kindLetters[r.Intn(4)])
+		g.kinds = append(g.kinds, kindLetters[r.Intn(len(kindLetters))])
 		g.sets = append(g.sets, map[int]bool{})
 	}
 	hdr := fmt.Sprintf("comp=reg sh=%d regs=%s", uint32(r.U64()), string(g.kinds))
@@ -1007,6 +1350,101 @@ func randomCase(r *hx.Rand, nregs, univ, length, maxPow, maxPart int) hx.Case {
 	return hx.Case{Header: hdr, Ops: g.ops}
 }
 
+// aliasCase: results of Clone / Union / Intersection / Difference / SelectMatch / PartitionMatch are edited and
+// the operands (and sibling results) re-observed, then the operands are edited and the results re-observed,
+// repeatedly, at sizes where a Go slice has spare capacity after growing or after a Remove.
+func aliasCase(r *hx.Rand) hx.Case {
+	const nregs = 7 // 0..2 operands, 3..6 results
+	kinds := make([]byte, nregs)
+	for i := range kinds {
+		kinds[i] = kindLetters[r.Intn(len(kindLetters))]
+	}
+	if r.Bool() { // same implementation everywhere: the case where a shared slice would go unnoticed least
+		for i := range kinds {
+			kinds[i] = kinds[0]
+		}
+	}
+	var ops []string
+	emit := func(format string, a ...any) { ops = append(ops, fmt.Sprintf(format, a...)) }
+	sizes := []int{3, 5, 6, 7, 9, 10, 11, 12, 13, 14, 15}
+	val := func() int { return r.Intn(24) - 4 }
+	for i := 0; i < 3; i++ {
+		n := hx.Pick(r, sizes)
+		var vs []int
+		for len(vs) < n+2 {
+			vs = append(vs, val())
+		}
+		if r.Bool() {
+			emit("add %d%s", i, join(vs))
+		} else { // one value per call: the slice grows by doubling and keeps spare capacity
+			for _, v := range vs {
+				emit("add %d %d", i, v)
+			}
+		}
+	}
+	observeAll := func() {
+		for i := 0; i < nregs; i++ {
+			emit("string %d", i)
+		}
+	}
+	edit := func(k int) {
+		for j := r.Range(2, 5); j > 0; j-- {
+			switch r.Intn(3) {
+			case 0:
+				emit("add %d %d %d", k, val(), val())
+			case 1:
+				emit("remove %d %d %d", k, val(), val())
+			default:
+				emit("remove %d %d", k, val())
+				emit("add %d %d", k, val())
+			}
+		}
+	}
+	for round := r.Range(3, 6); round > 0; round-- {
+		pred := hx.Pick(r, preds)
+		a, b, c := r.Intn(3), r.Intn(3), r.Intn(3)
+		switch r.Intn(8) {
+		case 0:
+			emit("clone 3 %d", a)
+			emit("clone 4 3")
+		case 1:
+			emit("union 3 %d %d %d", a, b, c)
+			emit("union 4 %d", a)
+		case 2:
+			emit("inter 3 %d %d", a, b)
+			emit("inter 4 %d", a)
+		case 3:
+			emit("diff 3 %d %d", a, b)
+			emit("diff 4 %d", a)
+		case 4:
+			emit("select 3 %d %s", a, pred)
+			emit("select 4 %d ge:-100", a)
+		case 5:
+			emit("partition 3 4 %d %s", a, pred)
+		case 6:
+			emit("union 3 %d %d", a, a)
+			emit("diff 4 %d 3", a)
+		default:
+			emit("cloneempty 3 %d", a)
+			emit("union 4 3 %d", a)
+		}
+		emit("clone 5 3")
+		emit("union 6 4 5")
+		observeAll()
+		// edit the results, look at the operands and the sibling results
+		edit(3)
+		observeAll()
+		edit(4)
+		edit(5)
+		observeAll()
+		// edit the operands, look at the results
+		edit(a)
+		edit(b)
+		observeAll()
+	}
+	return hx.Case{Header: fmt.Sprintf("comp=reg sh=%d regs=%s", uint32(r.U64()), string(kinds)), Ops: ops}
+}
+
 // enumCase: n elements of kind k, then powerset / partitions
 func enumCase(r *hx.Rand, kind byte, n int, what string) hx.Case {
 	perm := []int{}
@@ -1022,6 +1460,11 @@ func enumCase(r *hx.Rand, kind byte, n int, what string) hx.Case {
 		ops = append(ops, "add 0"+join(perm))
 	}
 	ops = append(ops, what+" 0", "string 0", "size 0")
+	if what == "powerset" {
+		ops = append(ops, "powermut 0 99", "string 0", "powermut 0 -4", "string 0")
+	} else {
+		ops = append(ops, "partmut 0 99", "string 0", "partmut 0 -4", "string 0")
+	}
 	return hx.Case{Header: fmt.Sprintf("comp=reg sh=%d regs=%c", uint32(r.U64()), kind), Ops: ops}
 }
 
@@ -1108,6 +1551,11 @@ func Main(run *hx.Run) {
 		}
 		do(randomCase(rr, rr.Range(2, 5), univ, length, 5, 4))
 	}
+	// aliasing: edit results, re-observe operands and siblings, edit operands, re-observe results
+	ra := run.R.Fork("alias")
+	for k := run.Scale(150); k > 0; k-- {
+		do(aliasCase(ra))
+	}
 	if run.Thorough() {
 		rx := run.R.Fork("exhaustive")
 		// (E1) every history of length <= 5 over {add v, remove v, removeall} with 3 values, and of length <= 4
@@ -1143,14 +1591,16 @@ func Main(run *hx.Run) {
 			}
 		}
 		// (E3) every triple of implementations x every triple of subsets of a 3-element universe
-		for _, ka := range []byte(kindLetters) {
-			for _, kb := range []byte(kindLetters) {
-				for _, kc := range []byte(kindLetters) {
-					for m := 0; m < 512; m++ {
-						ops := []string{"add 0" + join(shuffled(rx, subsetOf(m&7, 3))), "add 1" + join(shuffled(rx, subsetOf((m>>3)&7, 3))),
-							"add 2" + join(shuffled(rx, subsetOf((m>>6)&7, 3))),
-							"union 3 0 1 2", "inter 3 0 1 2", "diff 3 0 1 2", "string 0", "string 1", "string 2"}
-						do(hx.Case{Header: fmt.Sprintf("comp=reg sh=%d regs=%c%c%c%c", uint32(rx.U64()), ka, kb, kc, ka), Ops: ops})
+		for _, alphabet := range []string{"usad", "sbe", "uce"} {
+			for _, ka := range []byte(alphabet) {
+				for _, kb := range []byte(alphabet) {
+					for _, kc := range []byte(alphabet) {
+						for m := 0; m < 512; m++ {
+							ops := []string{"add 0" + join(shuffled(rx, subsetOf(m&7, 3))), "add 1" + join(shuffled(rx, subsetOf((m>>3)&7, 3))),
+								"add 2" + join(shuffled(rx, subsetOf((m>>6)&7, 3))),
+								"union 3 0 1 2", "inter 3 0 1 2", "diff 3 0 1 2", "string 0", "string 1", "string 2"}
+							do(hx.Case{Header: fmt.Sprintf("comp=reg sh=%d regs=%c%c%c%c", uint32(rx.U64()), ka, kb, kc, ka), Ops: ops})
+						}
 					}
 				}
 			}
